@@ -1410,6 +1410,7 @@ func TestVerifC11Registrar(t *testing.T) {
 	c.msgLines()
 	c.histories()
 	c.parsers()
+	c.writers()
 	c.dnsDirect()
 	c.dnsChild(t)
 }
